@@ -108,7 +108,7 @@ def run_scenarios(driver_exe, replayer_exe, scns, workdir, timeout=3000, shards=
         outp = os.path.join(workdir, "res%d.txt" % k)
         open(inp, "w").write("".join(s.text() for s in part))
         cmd = "%s < %s | %s > %s" % (driver_exe, inp, replayer_exe, outp)
-        procs.append((subprocess.Popen(["bash", "-c", "set -o pipefail; ulimit -v 8000000; " + cmd], stderr=subprocess.PIPE, text=True,
+        procs.append((subprocess.Popen(["bash", "-c", "set -o pipefail; ulimit -v 8000000; ulimit -s 2000000 2>/dev/null; " + cmd], stderr=subprocess.PIPE, text=True,
                                        # GOMAXPROCS differs from the CPU count on purpose: nothing may depend on it
                                        env=dict(os.environ, GOCOVERDIR=covdir, GOMAXPROCS=str((os.cpu_count() or 1) + 1))), outp))
     for p, outp in procs:
